@@ -80,9 +80,9 @@ CONSTS = {
     "quick": dict(BINS="{0,1,2,3,8}", TYPES="{0,4,6}", XS="{1,2,31,32,33,65,4096,4097,8192,8193}",
                   YS="{1,2,31,32,33,65,4096,4097,8192,8193}", XS2="{1,33,8193}", YS2="{2,64}", OES="{0,2}", sample=70),
     "thorough": dict(BINS="{0,1,2,3,4,8,16}", TYPES="{0,1,2,3,4,5,6,7}",
-                     XS="{1,2,3,31,32,33,63,64,65,1024,1025,2048,2049,4095,4096,4097,8192,8193}",
-                     YS="{1,2,3,31,32,33,63,64,65,1024,1025,2048,2049,4095,4096,4097,8192,8193}",
-                     XS2="{1,33,64,2049,8193}", YS2="{1,2,63,4097}", OES="{0,1,2}", sample=900),
+                     XS="{1,2,31,32,33,64,65,2048,2049,4095,4096,4097,8192,8193}",
+                     YS="{1,2,31,32,33,64,65,2048,2049,4095,4096,4097,8192,8193}",
+                     XS2="{1,33,2049,8193}", YS2="{2,63,4097}", OES="{0,2}", sample=500),
     "demo": dict(BINS="{1,2,8}", TYPES="{0,4}", XS="{1,33,64}", YS="{2,48}", XS2="{1,8}", YS2="{2}", OES="{0}", sample=1),
 }
 INVARIANTS = "TypeOK ReportedShapeConsistent ReadBackInEffect CopyExact RenderWithinBuffers Bin2AlignmentOK"
@@ -319,6 +319,8 @@ def context_of(evs, pos, rule, variant, mis, script, asan=False, small=False):
             running = False
     if rule == "BufferSmallerThanRender":
         return "site=simcam_set cause=buffers-sized-for-binned-shape" if binned else "site=simcam_set"
+    if rule not in ("StrayAccess", "Crash", "CallerCanaryHit", "BadFree", "FrameErrTouchedBuffer"):
+        return "site=%s" % last["e"]              # not a memory rule: no cause guessing
     site = {"StrayAccess": "streamer", "Crash": "streamer"}.get(rule, last["e"])
     what = "stray=%s" % last.get("kind", "?") if rule == "StrayAccess" else "sig=%s" % last.get("sig") if rule == "Crash" else ""
     # The cause is a diagnostic guess (a process that dies inside a call leaves little behind), tried in this order:
